@@ -47,6 +47,9 @@ STRUCT = {
     "CONTAINER-PROV": RT.rule_container_prov,
     "SEQ-PROV": RT.rule_seq_prov,
     "MERGE-ARMS": RT.rule_merge_arms,
+    "MEMO-WRITERS": RT.rule_memo_writers,
+    "BUILDER-PROV": RT.rule_builder_prov,
+    "CHAR-PROV": RT.rule_char_prov,
     "ENTRY-SIB": RT.rule_entry_sib,
     "NONCONSUMPTION-FWD": RT.rule_nonconsumption,
     "CHAR-SIB": RX.rule_char_sib,
@@ -60,25 +63,25 @@ STRUCT = {
 # "K" = the contract automata that serve this property (spec/contract_map.py)
 PROP_RULES = {
     "C01": ["K", "D:POISON", "SEQ-PROV"],
-    "C02": ["K", "D:POISON"],
+    "C02": ["K", "D:POISON", "BUILDER-PROV"],
     "C03": ["ENTRY", "K", "STREAM", "D:POISON", "MODE-PURE"],
     "C04": ["MODE-PAIR", "MODE-PURE", "K", "D:POISON", "ENTRY-SIB"],
     "C05": ["D:POISON", "D:KEEP", "D:LIFO", "HOOKS-SAVE-REWIND", "HOOKS-WRITERS", "MODE-PURE", "SUB-INPUT", "K"],
     "C07": ["K", "SPAN-PROV", "READER-SIB", "INPUT-MISC"],
-    "C10": ["READER-SIB", "SPAN-PROV", "STREAM", "INPUT-MISC", "CHAR-SIB"],
+    "C10": ["READER-SIB", "SPAN-PROV", "STREAM", "INPUT-MISC", "CHAR-SIB", "CHAR-PROV"],
     "C06": ["D:ALT-LINEAR", "D:ALT-POS", "D:PFAIL", "ORDER-ARMS", "ERR-SPAN", "MERGE-ARMS", "ENTRY", "K"],
     "C08": ["K", "D:POISON", "D:ALT-LINEAR", "D:PFAIL", "MODE-PURE", "SUB-INPUT"],
     "C09": ["K", "D:POISON", "RECURSE", "AFFINE"],
-    "C11": ["K", "D:ALT-LINEAR", "D:ALT-POS", "D:PFAIL", "MEMO-KEY"],
+    "C11": ["K", "D:ALT-LINEAR", "D:ALT-POS", "D:PFAIL", "MEMO-KEY", "MEMO-WRITERS"],
     "C12": ["RECURSE", "ONCE", "CLONE-FIELDS", "K"],
-    "C13": ["FREEZE", "STATICS", "OWN-STATE", "CLONE-FIELDS", "K"],
-    "C14": ["CHAR-SIB", "REGEX-ANCHOR", "K", "HOOKS-TOKEN", "SEQ-PROV"],
-    "C15": ["K", "SUB-INPUT"],
-    "C16": ["K", "SUB-INPUT", "D:ALT-LINEAR", "D:PFAIL"],
+    "C13": ["FREEZE", "STATICS", "OWN-STATE", "CLONE-FIELDS", "MODE-PAIR", "K"],
+    "C14": ["CHAR-SIB", "CHAR-PROV", "REGEX-ANCHOR", "K", "HOOKS-TOKEN", "SEQ-PROV", "MODE-PURE"],
+    "C15": ["K", "SUB-INPUT", "MODE-PAIR", "BUILDER-PROV"],
+    "C16": ["K", "SUB-INPUT", "D:ALT-LINEAR", "D:PFAIL", "SPAN-PROV", "READER-SIB"],
     "C17": ["K", "D:ALT-LINEAR", "D:ALT-POS", "ERR-SPAN"],
     "C18": ["HOOKS-WRITERS", "HOOKS-TOKEN", "HOOKS-SAVE-REWIND", "SUB-INPUT", "D:POISON", "D:KEEP", "K"],
     "C19": ["UNSAFE-INV", "MAYBEUNINIT", "CONTAINER-PROV"],
-    "C20": ["D:PFAIL", "RECURSE", "INPUT-MISC", "NONCONSUMPTION-FWD", "K"],
+    "C20": ["D:PFAIL", "RECURSE", "INPUT-MISC", "NONCONSUMPTION-FWD", "MODE-PAIR", "K"],
 }
 
 # properties whose typestate disciplines are restricted to the bodies of their own contract groups
